@@ -29,6 +29,7 @@ RULE = ("Generated: 1-2 storages (size, charge/discharge rates, charging efficie
         "start != end, two nodes, blocks, MIP option}; (holding) all 2^T patterns decided on a grid with unequal steps. "
         "Distinct = distinct spec hash.")
 RULE += (' Variant coarse_mip: storage with an own coarser frequency and the no-simultaneous option under mostly negative prices.')
+RULE += (' Round 5: whole-number size / start level written as integers next to a fractional end level.')
 ASSUMPTIONS = ["coarse frequency / periodicity: only the level clauses (physical level in [0,size], end level, reported = physical) - the "
                "formulation itself is C13's; a periodic storage on a horizon that ends inside a period has no end-level claim",
                "maximum holding duration: the time held is the sum of the lengths of consecutive steps with a non-zero level at their end "
